@@ -457,6 +457,17 @@ class FetchAtt:
                 and not msg.get_payload()
             ):
                 return b""
+
+            # Likewise the HEADER of the whole message is its own header,
+            # also when it is a message/rfc822: looking into the
+            # encapsulated message is for body parts addressed by number.
+            #
+            if (
+                top
+                and isinstance(section[0], str)
+                and section[0].upper() == "HEADER"
+            ):
+                return msg_headers_as_bytes(msg)
             return self._single_section(msg, section[0])
 
         if isinstance(section[0], int):
